@@ -228,7 +228,10 @@ class _ImmutableTaskList:
             return t.parent.id if t.parent else None
         if attribute_name == 'id':
             return t.id
-        return t.__getattribute__(attribute_name) if attribute_name in t.__dict__ else None
+        if attribute_name.startswith('_'):
+            return None
+        # getattr instead of __dict__ lookup: estimate, spent, parent etc. are properties
+        return getattr(t, attribute_name, None)
 
     def __call__(
             self,
